@@ -25,7 +25,7 @@ BEC2 = "bec2format.bec2file"
 def set_config_rules(prog, chk, pid):
     P = lambda s: "%s.%s" % (pid, s)
     fi = prog.method(BF3 + ".Bf3File", "set_config")
-    ex = Exec(prog, policy=lambda e, f, d: f.name == "_get_config_ndx")
+    ex = Exec(prog, policy=lambda e, f, d: f.name == "_get_config_ndx" or (f.name == "<lambda>" and f.module.name == BF3))
     res = ex.run(fi)
     where = "%s:%d" % (fi.file, fi.lineno)
     ev = res.events
@@ -45,6 +45,11 @@ def set_config_rules(prog, chk, pid):
     if ok:
         # the search returns the index of a component whose TYPE tag equals 03, scanning self.components
         rets = [e for e in ev if e.kind == "return" and e.fn.name == "_get_config_ndx" and not e.d.get("implicit")]
+        # (the search proper may be a generic walker that did not exist on the pinned tree, called by _get_config_ndx with the test as a callback:
+        # then the returns that matter are the walker's, and _get_config_ndx hands its result on)
+        inner = [e for e in ev if e.kind == "return" and not e.d.get("implicit") and e.fn.name not in ("_get_config_ndx", "<lambda>") and any(q.endswith("._get_config_ndx") for q in e.stack[:-1])]
+        if inner and all(unsnap(r.d["value"]).op in ("call", "phi", "index") for r in rets):
+            rets = inner
         good = bool(rets)
         for r in rets:
             conds = [rel(f[1], f[2]) for f in r.ctx if f[0] == "if"]
